@@ -38,10 +38,42 @@ const tinyGenome = "genomestart 1\n" +
 	"gene 1 2 3 2.5 false 2 0 true\n" +
 	"genomeend 1\n"
 
-func readPlain(src string, id int) *genetics.Genome {
+// plainReadFailure is raised when the plain reader does not return the genome a text describes; the
+// runner's panic handler turns it into a recorded failing input
+type plainReadFailure struct {
+	Text string
+	What string
+}
+
+func checkPlainRead(src string, id int) (*genetics.Genome, *plainReadFailure) {
 	g, err := genetics.ReadGenome(strings.NewReader(src), id)
 	if err != nil {
-		panic(err)
+		return nil, &plainReadFailure{src, "plain reader failed: " + err.Error()}
+	}
+	nGenes, nNodes := 0, 0
+	for _, line := range strings.Split(src, "\n") {
+		if strings.HasPrefix(line, "gene ") {
+			nGenes++
+		}
+		if strings.HasPrefix(line, "node ") {
+			nNodes++
+		}
+	}
+	if len(g.Genes) != nGenes || len(g.Nodes) != nNodes {
+		return nil, &plainReadFailure{src, "plain reader returned a different number of genes or nodes than the text lists"}
+	}
+	for _, x := range g.Genes {
+		if x.Link == nil || x.Link.InNode == nil || x.Link.OutNode == nil {
+			return nil, &plainReadFailure{src, "plain reader returned a gene without one of its endpoint nodes"}
+		}
+	}
+	return g, nil
+}
+
+func readPlain(src string, id int) *genetics.Genome {
+	g, f := checkPlainRead(src, id)
+	if f != nil {
+		panic(f)
 	}
 	return g
 }
